@@ -65,7 +65,8 @@ def generate(run_seed, tier):
                   hash=libx.pick_hash_name(r, toy), fseed=r.getrandbits(32),
                   k=libx.key_scalar(r, n),
                   allow_truncate=r.random() < 0.8,
-                  use_digest=r.random() < 0.5)
+                  use_digest=r.random() < 0.5,
+                  precompute=r.choice(["no", "no", "no", "eager", "lazy"]))
         if it["use_digest"]:
             ln = max(1, r.choice([1, 2, mc.nlen - 1, mc.nlen, mc.nlen + 1,
                                   2 * mc.nlen, r.randrange(1, 40)]))
@@ -286,6 +287,9 @@ def execute(prog):
             # ---- the library's verdict
             arg = data if fmt != "strings" else \
                 (tuple(data) if rnd.random() < 0.5 else list(data))
+            if it.get("precompute", "no") != "no":
+                # the verifier's table path (both points precomputed)
+                vkey.precompute(lazy=(it["precompute"] == "lazy"))
             try:
                 if v_msg is not None:
                     res = vkey.verify(arg, v_msg, hashfunc=v_hf,
